@@ -480,7 +480,7 @@ Section OppPhase.
              ++ eexists. split; [exact I2|]. simpl. rewrite (R_at p c f A), (R_at p2 c2 f2 A2). right. left. reflexivity.
           -- unfold touches. simpl. destruct (loc_eq_dec p p); [reflexivity|congruence].
         * intros w Hw Hfst o0. apply opp_write_inv in Hw.
-          destruct Hw as (p' & c' & f' & p3 & c3 & f3 & A' & A3 & O' & O3 & [->|->]); simpl in Hfst; subst.
+          destruct Hw as (p' & c' & f' & p3 & c3 & f3 & A' & A3 & O' & O3 & [-> | ->]); simpl in Hfst; subst.
           -- destruct (at_loc_fun cs p c f c' f' A A') as [-> ->]. rewrite Ho in O'. inversion O' as [[E1 E2]].
              assert (X : R (cd_name c2, fd_name f2) = Some p2) by (apply R_at; assumption).
              rewrite E1, E2 in X. rewrite (R_at p3 c3 f3 A3) in X. inversion X; subst. reflexivity.
@@ -489,8 +489,1001 @@ Section OppPhase.
              rewrite E1, E2 in X. rewrite (R_at p' c' f' A') in X. inversion X; subst. reflexivity.
       + rewrite (fold_effect_const p (fun o => o)); [destruct (existsb _ _); reflexivity| |reflexivity].
         intros w Hw Hfst o0. exfalso. apply opp_write_inv in Hw.
-        destruct Hw as (p' & c' & f' & p3 & c3 & f3 & A' & A3 & O' & O3 & [->|->]); simpl in Hfst; subst.
+        destruct Hw as (p' & c' & f' & p3 & c3 & f3 & A' & A3 & O' & O3 & [-> | ->]); simpl in Hfst; subst.
         * destruct (at_loc_fun cs p c f c' f' A A') as [-> ->]. congruence.
         * destruct (at_loc_fun cs p c f c3 f3 A A3) as [-> ->]. congruence.
   Qed.
 End OppPhase.
+
+(* ---------- the objects both constructions must end with ---------- *)
+
+Definition cls_idx (cs : list cdecl) (n : name) : nat :=
+  match lookup_cls cs n with Some j => j | None => O end.
+
+Definition attr_default (T : list tdecl) (f : fdecl) : option Z :=
+  match fd_default f with
+  | Some d => Some d
+  | None => match lookup_type T (fd_type f) with Some td => td_default td | None => None end
+  end.
+
+Definition base_obj (T : list tdecl) (i : nat) (f : fdecl) (ty : option tyref) : fobj :=
+  mkO (Some (fd_name f)) (fd_ref f) ty (fd_lower f) (fd_upper f) (fd_ordered f) (fd_unique f)
+      (fd_ref f && fd_cont f) None (if fd_ref f then None else attr_default T f) (Some i).
+
+Definition fin_type (cs : list cdecl) (f : fdecl) : tyref :=
+  if fd_ref f then TyClass (cls_idx cs (fd_type f)) else TyData (fd_type f).
+
+Definition with_opp (y : option loc) (o : fobj) : fobj :=
+  match y with Some l => set_oppf l o | None => o end.
+
+Definition fin_obj (T : list tdecl) (cs : list cdecl) (i : nat) (f : fdecl) : fobj :=
+  with_opp (opp_loc cs f) (base_obj T i f (Some (fin_type cs f))).
+
+Definition realises (D : descr) (w : world) : Prop :=
+  length (w_ecl w) = length (d_classes D) /\
+  forall i c, nth_error (d_classes D) i = Some c ->
+    exists e, nth_error (w_ecl w) i = Some e /\ e_name e = cd_name c /\ e_abstract e = cd_abstract c /\
+      e_supers e = map (cls_idx (d_classes D)) (cd_supers c) /\
+      e_feats e = map (fun jf => (i, fst jf)) (number_from O (cd_feats c)) /\
+      map describe_op (e_ops e) = cd_ops c /\
+      forall j f, nth_error (cd_feats c) j = Some f ->
+        get_loc (i, j) (w_heap w) = Some (fin_obj (d_types D) (d_classes D) i f).
+
+Lemma In_firstn {A} (x : A) : forall n l, In x (firstn n l) -> In x l.
+Proof.
+  induction n as [|n IH]; intros [|y l] H; simpl in *; try contradiction.
+  destruct H as [->|H]; [left; reflexivity|right; apply IH; assumption].
+Qed.
+
+Section Describe.
+  Variable D : descr.
+  Hypothesis W : WF D.
+  Let cs := d_classes D.
+  Let T := d_types D.
+  Variable w : world.
+  Hypothesis RW : realises D w.
+
+  Lemma cls_name_at i c : nth_error cs i = Some c -> cls_name w i = cd_name c.
+  Proof.
+    intros Hc. destruct RW as [_ R]. destruct (R i c Hc) as (e & He & En & _).
+    unfold cls_name. rewrite He. assumption.
+  Qed.
+
+  Lemma cls_name_idx s : In s (map cd_name cs) -> cls_name w (cls_idx cs s) = s.
+  Proof.
+    intros Hin. apply in_map_iff in Hin. destruct Hin as (c & <- & Hc). apply In_nth_error in Hc.
+    destruct Hc as [i Hi]. unfold cls_idx. pose proof (lookup_cls_at D W i c Hi) as L. fold cs in L.
+    rewrite L. apply cls_name_at. assumption.
+  Qed.
+
+  Lemma describe_feat_at i c j f :
+    nth_error cs i = Some c -> nth_error (cd_feats c) j = Some f ->
+    describe_feat w (i, j) = canon_feat T f.
+  Proof.
+    intros Hc Hf. destruct RW as [_ R]. destruct (R i c Hc) as (e & _ & _ & _ & _ & _ & _ & Hg).
+    unfold describe_feat. rewrite (Hg j f Hf). fold cs. fold T.
+    pose proof (wf_feats D W i c f Hc (nth_error_In _ _ Hf)) as Wf. unfold wf_feat in Wf.
+    apply andb_true_iff in Wf. destruct Wf as [_ Wf]. fold cs in Wf. fold T in Wf.
+    unfold canon_feat, fin_obj, fin_type, base_obj, opp_loc. destruct (fd_ref f) eqn:Rf.
+    - rewrite !andb_true_iff in Wf. destruct Wf as [[W1 W2] W3].
+      destruct (lookup_cls cs (fd_type f)) as [jt|] eqn:Lt; [|discriminate].
+      assert (Tn : cls_name w (cls_idx cs (fd_type f)) = fd_type f).
+      { apply cls_name_idx. pose proof (lookup_cls_some D _ _ Lt) as (ct & Hct & <-).
+        apply in_map. eapply nth_error_In. exact Hct. }
+      destruct (fd_default f) as [d|] eqn:Df; [discriminate|].
+      destruct (fd_opp f) as [q|] eqn:Of.
+      + destruct (opp_ok D W (i, j) c f q (conj Hc Hf) Of) as ([i2 j2] & c2 & f2 & [A1 A2] & -> & _).
+        simpl in A1, A2. pose proof (resolve_d_at D W (i2, j2) c2 f2 (conj A1 A2)) as RD. fold cs in RD. rewrite RD.
+        simpl. destruct (R i2 c2 A1) as (e2 & _ & _ & _ & _ & _ & _ & Hg2). rewrite (Hg2 j2 f2 A2).
+        assert (ON : oname (fin_obj (d_types D) (d_classes D) i2 f2) = fd_name f2
+                     /\ o_owner (fin_obj (d_types D) (d_classes D) i2 f2) = Some i2).
+        { unfold fin_obj. destruct (opp_loc (d_classes D) f2); split; reflexivity. }
+        destruct ON as [-> ->]. rewrite Tn. rewrite (cls_name_at i2 c2 A1).
+        destruct f; simpl in *; subst. reflexivity.
+      + simpl. rewrite Tn. destruct f; simpl in *; subst. reflexivity.
+    - rewrite !andb_true_iff in Wf. destruct Wf as [[W1 W2] W3].
+      destruct (fd_opp f) as [q|] eqn:Of; [discriminate|]. apply negb_true_iff in W2.
+      simpl. unfold attr_default. destruct f; simpl in *; subst. reflexivity.
+  Qed.
+
+  Theorem realises_describe : describe w = canonical D.
+  Proof.
+    apply list_ext_nth. intros i. unfold describe, canonical. rewrite !nth_error_map. fold cs.
+    destruct (nth_error cs i) as [c|] eqn:Hc.
+    - destruct RW as [_ R]. destruct (R i c Hc) as (e & He & En & Ea & Es & Ef & Eo & _).
+      rewrite He. simpl. f_equal. rewrite En, Ea, Es, Ef, Eo. f_equal.
+      + rewrite map_map. rewrite <- (map_id (cd_supers c)) at 2. apply map_ext_in. intros s Hs.
+        apply cls_name_idx. pose proof (wf_sup_before D W i c s Hc Hs) as B. fold cs in B.
+        apply in_map_iff in B. destruct B as (c' & <- & Hc'). apply in_map. eapply In_firstn. exact Hc'.
+      + rewrite map_map. simpl. apply (map_number_from (fun j => describe_feat w (i, j)) (canon_feat T)).
+        intros j f Hf. simpl. apply (describe_feat_at i c j f Hc Hf).
+    - destruct RW as [Len _]. assert (N : nth_error (w_ecl w) i = None).
+      { apply nth_error_None. rewrite Len. apply nth_error_None. assumption. }
+      rewrite N. reflexivity.
+  Qed.
+End Describe.
+
+(* ---------- small facts shared by both constructions ---------- *)
+
+Lemma NoDup_map_inj_in {A B} (f : A -> B) : forall l,
+  NoDup l -> (forall x y, In x l -> In y l -> f x = f y -> x = y) -> NoDup (map f l).
+Proof.
+  induction l as [|x r IH]; intros ND Inj; simpl; [constructor|].
+  inversion ND as [|? ? Hn Hr]; subst. constructor.
+  - intros Hin. apply in_map_iff in Hin. destruct Hin as (y & E & Hy).
+    assert (y = x) by (apply Inj; [right; assumption|left; reflexivity|assumption]). subst. contradiction.
+  - apply IH; [assumption|]. intros a b Ha Hb. apply Inj; right; assumption.
+Qed.
+
+Lemma fold_oset_add_nodup : forall js acc,
+  NoDup (acc ++ js) -> fold_left (fun acc j => oset_add j acc) js acc = acc ++ js.
+Proof.
+  induction js as [|j r IH]; intros acc ND; simpl; [rewrite app_nil_r; reflexivity|].
+  assert (E : oset_add j acc = acc ++ [j]).
+  { unfold oset_add. destruct (existsb (Nat.eqb j) acc) eqn:X; [|reflexivity].
+    apply existsb_exists in X. destruct X as (y & Hy & Ey). apply Nat.eqb_eq in Ey. subst y.
+    exfalso. apply NoDup_remove_2 in ND. apply ND. apply in_or_app. left. assumption. }
+  rewrite E. rewrite IH; rewrite <- app_assoc; simpl; [reflexivity|assumption].
+Qed.
+
+Lemma nth_error_combine {A B} : forall (a : list A) (b : list B) i x y,
+  nth_error a i = Some x -> nth_error b i = Some y -> nth_error (combine a b) i = Some (x, y).
+Proof.
+  induction a as [|x0 a IH]; intros [|y0 b] [|i] x y Ha Hb; simpl in *; try discriminate.
+  - inversion Ha; inversion Hb; reflexivity.
+  - apply IH; assumption.
+Qed.
+
+Lemma describe_dyn_op o : wf_op o = true -> describe_op (dyn_op o) = o.
+Proof.
+  destruct o as [n ps]. unfold wf_op. rewrite !andb_true_iff. intros [[[_ _] NS] _]. simpl in NS.
+  apply negb_true_iff in NS. apply nmem_false in NS.
+  unfold describe_op, dyn_op. simpl. f_equal.
+  assert (S : strip_self (map (fun p : name * bool => mkParam (fst p) (snd p) (DLit NONE_DEFAULT)) ps)
+              = map (fun p : name * bool => mkParam (fst p) (snd p) (DLit NONE_DEFAULT)) ps).
+  { destruct ps as [|p r]; [reflexivity|]. simpl. destruct (name_eqb (fst p) SELF) eqn:E; [|reflexivity].
+    apply name_eqb_eq in E. exfalso. apply NS. left. assumption. }
+  rewrite S, map_map. simpl. rewrite <- (map_id ps) at 2. apply map_ext. intros [a b]. reflexivity.
+Qed.
+
+Lemma nth_error_firstn_some {A} : forall n (l : list A) j x,
+  nth_error (firstn n l) j = Some x -> nth_error l j = Some x /\ (j < n)%nat.
+Proof.
+  induction n as [|n IH]; intros l j x H; simpl in H; [destruct j; discriminate|].
+  destruct l as [|y l]; [destruct j; discriminate|]. destruct j as [|j]; simpl in *.
+  - split; [assumption|lia].
+  - destruct (IH l j x H) as [H1 H2]. split; [assumption|lia].
+Qed.
+
+Section Common.
+  Variable D : descr.
+  Hypothesis W : WF D.
+  Let cs := d_classes D.
+  Let T := d_types D.
+
+  Lemma super_is_class i c s : nth_error cs i = Some c -> In s (cd_supers c) ->
+    exists j c', nth_error cs j = Some c' /\ cd_name c' = s /\ (j < i)%nat.
+  Proof.
+    intros Hc Hs. pose proof (wf_sup_before D W i c s Hc Hs) as B. fold cs in B.
+    apply in_map_iff in B. destruct B as (c' & E & Hc'). apply In_nth_error in Hc'. destruct Hc' as [j Hj].
+    apply nth_error_firstn_some in Hj. destruct Hj as [Hj J].
+    exists j, c'. split; [assumption|]. split; assumption.
+  Qed.
+
+  Lemma cls_idx_at i c : nth_error cs i = Some c -> cls_idx cs (cd_name c) = i.
+  Proof. intros Hc. unfold cls_idx. pose proof (lookup_cls_at D W i c Hc) as L. fold cs in L. rewrite L. reflexivity. Qed.
+
+  Lemma supers_idx_nodup i c : nth_error cs i = Some c -> NoDup (map (cls_idx cs) (cd_supers c)).
+  Proof.
+    intros Hc. apply NoDup_map_inj_in; [apply (wf_sup_nodup D W i c Hc)|].
+    intros s1 s2 H1 H2 E.
+    destruct (super_is_class i c s1 Hc H1) as (j1 & c1 & Hj1 & <- & _).
+    destruct (super_is_class i c s2 Hc H2) as (j2 & c2 & Hj2 & <- & _).
+    rewrite (cls_idx_at j1 c1 Hj1), (cls_idx_at j2 c2 Hj2) in E. subst j2. congruence.
+  Qed.
+
+  (* the object a feature declaration yields before any opposite is set *)
+  Definition pre_opp (i : nat) (f : fdecl) : fobj := base_obj T i f (Some (fin_type cs f)).
+
+  Lemma dyn_obj_ok i c f : nth_error cs i = Some c -> In f (cd_feats c) ->
+    dyn_obj T cs i f = Some (pre_opp i f).
+  Proof.
+    intros Hc Hf. pose proof (wf_feats D W i c f Hc Hf) as Wf. unfold wf_feat in Wf.
+    apply andb_true_iff in Wf. destruct Wf as [_ Wf]. fold cs in Wf. fold T in Wf.
+    unfold dyn_obj, pre_opp, base_obj, fin_type, cls_idx, attr_default. destruct (fd_ref f).
+    - rewrite !andb_true_iff in Wf. destruct Wf as [[W1 W2] _].
+      destruct (lookup_cls cs (fd_type f)); [|discriminate]. destruct (fd_default f); [discriminate|]. reflexivity.
+    - rewrite !andb_true_iff in Wf. destruct Wf as [[W1 _] _].
+      destruct (lookup_type T (fd_type f)); [|discriminate]. reflexivity.
+  Qed.
+End Common.
+
+(* ---------- the dynamic construction realises the description ---------- *)
+
+Section Dynamic.
+  Variable D : descr.
+  Hypothesis W : WF D.
+  Let cs := d_classes D.
+  Let T := d_types D.
+
+  Definition dyn_heap0 : heap :=
+    map (fun ic => map (pre_opp D (fst ic)) (cd_feats (snd ic))) (number_from O cs).
+
+  Lemma dyn_heap_ok : dyn_heap T cs = Some dyn_heap0.
+  Proof.
+    unfold dyn_heap, dyn_heap0. apply all_some_map. intros [i c] Hic. simpl.
+    apply In_number_from in Hic. destruct Hic as (j & -> & Hj). simpl.
+    apply all_some_map. intros f Hf. apply (dyn_obj_ok D W j c f Hj Hf).
+  Qed.
+
+  Lemma get_dyn_heap0 i c j f : nth_error cs i = Some c -> nth_error (cd_feats c) j = Some f ->
+    get_loc (i, j) dyn_heap0 = Some (pre_opp D i f).
+  Proof.
+    intros Hc Hf. unfold get_loc, dyn_heap0. simpl. rewrite nth_error_map, nth_error_number_from, Hc. simpl.
+    rewrite nth_error_map, Hf. reflexivity.
+  Qed.
+
+  Lemma dyn_supers_ok i c : nth_error cs i = Some c ->
+    dyn_supers cs c = Some (map (cls_idx cs) (cd_supers c)).
+  Proof.
+    intros Hc. unfold dyn_supers.
+    rewrite (all_some_map (lookup_cls cs) (cls_idx cs)).
+    - f_equal. rewrite fold_oset_add_nodup; [reflexivity|]. simpl. apply (supers_idx_nodup D W i c Hc).
+    - intros s Hs. destruct (super_is_class D W i c s Hc Hs) as (j & c' & Hj & <- & _).
+      pose proof (lookup_cls_at D W j c' Hj) as L. fold cs in L. unfold cls_idx. rewrite L. reflexivity.
+  Qed.
+
+  Theorem dynamic_realises : exists w, build_dynamic D = Some w /\ realises D w.
+  Proof.
+    unfold build_dynamic. fold cs. fold T.
+    rewrite (all_some_map (dyn_supers cs) (fun c => map (cls_idx cs) (cd_supers c))).
+    2:{ intros c Hc. apply In_nth_error in Hc. destruct Hc as [i Hi]. apply (dyn_supers_ok i c Hi). }
+    rewrite dyn_heap_ok.
+    destruct (opp_phase D W (resolve_d cs) (resolve_d_at D W) (all_opps cs)
+                        (fun ab H => H) (fun a b H => or_introl H) dyn_heap0) as (h' & E & P).
+    fold cs in E. rewrite E. eexists. split; [reflexivity|].
+    split.
+    - simpl. unfold dyn_ecl. rewrite map_length, combine_length, length_number_from, map_length.
+      apply Nat.min_id.
+    - intros i c Hc. fold cs in Hc. simpl. unfold dyn_ecl. rewrite nth_error_map.
+      rewrite (nth_error_combine _ _ i (i, c) (map (cls_idx cs) (cd_supers c))).
+      + simpl. eexists. split; [reflexivity|]. simpl. repeat split.
+        * rewrite map_map. rewrite <- (map_id (cd_ops c)) at 2. apply map_ext_in. intros o Ho.
+          apply describe_dyn_op. apply (wf_ops D W i c o Hc Ho).
+        * intros j f Hf. fold cs in P. rewrite (P (i, j) c f (pre_opp D i f) (conj Hc Hf) (get_dyn_heap0 i c j f Hc Hf)).
+          reflexivity.
+      + rewrite nth_error_number_from, Hc. reflexivity.
+      + rewrite nth_error_map, Hc. reflexivity.
+  Qed.
+End Dynamic.
+
+(* ---------- reflection of the rendered methods ---------- *)
+
+Lemma promote_ns_app a b : promote_ns (a ++ b) = promote_ns a ++ promote_ns b.
+Proof.
+  induction a as [|[[k f] m] r IH]; simpl; [reflexivity|].
+  destruct m as [s| |]; try assumption.
+  destruct (starts_dunder k || starts_dunder f); [assumption|].
+  destruct (a_args s) as [|a0 rest]; [assumption|].
+  destruct (name_eqb a0 SELF); [simpl; f_equal; assumption|assumption].
+Qed.
+
+Definition op_spec (o : odecl) : argspec :=
+  mkSpec (map pc_name (op_sig (snd o))) (defaults_of (op_sig (snd o))).
+
+Lemma describe_promoted_op o : wf_op o = true -> describe_op (fst o, promote_spec (op_spec o)) = o.
+Proof.
+  destruct o as [n ps]. unfold wf_op. rewrite !andb_true_iff. intros [_ RO]. cbn [snd] in RO.
+  apply negb_true_iff in RO. unfold describe_op, op_spec. cbn [fst snd]. f_equal.
+  unfold promote_spec. rewrite nreq_spec. cbn [a_args].
+  pose proof (reflect_spec (op_sig ps) O RO) as SV. rewrite Nat.add_0_l in SV.
+  unfold op_sig in *. cbn [map pc_name self_code] in *. cbn [reflect_params] in *.
+  cbn [strip_self p_name]. rewrite name_eqb_refl.
+  cbn [map] in SV. injection SV as SV'.
+  etransitivity; [exact SV'|]. rewrite map_map. rewrite <- (map_id ps) at 2. apply map_ext. intros [a b]. simpl.
+  destruct b; reflexivity.
+Qed.
+
+Lemma promote_ns_ops ops :
+  (forall o, In o ops -> wf_op o = true) ->
+  promote_ns (map (fun o : odecl => (fst o, fst o, MFunc (op_spec o))) ops)
+  = map (fun o => (fst o, promote_spec (op_spec o))) ops.
+Proof.
+  induction ops as [|o r IH]; intros H; simpl; [reflexivity|].
+  assert (K : starts_dunder (fst o) = false).
+  { pose proof (H o (or_introl eq_refl)) as Wo. unfold wf_op, key_ok in Wo. rewrite !andb_true_iff in Wo.
+    destruct Wo as [[[[K _] _] _] _]. apply negb_true_iff in K. assumption. }
+  rewrite K. simpl.
+  f_equal. apply IH. intros o' Ho'. apply H. right. assumption.
+Qed.
+
+(* ---------- one class statement of the rendering ---------- *)
+
+Lemma NoDup_snoc {A} (l : list A) x : NoDup l -> ~ In x l -> NoDup (l ++ [x]).
+Proof.
+  induction l as [|y r IH]; intros ND N; simpl; [constructor; [intros []|constructor]|].
+  inversion ND as [|? ? Hn Hr]; subst. constructor.
+  - intros Hin. apply in_app_or in Hin. destruct Hin as [Hin|[->|[]]]; [contradiction|]. apply N. left. reflexivity.
+  - apply IH; [assumption|]. intros Hin. apply N. right. assumption.
+Qed.
+
+Definition fe_of (f : fdecl) : fentry :=
+  mkFE None (fd_ref f) (if fd_ref f then None else Some (fd_type f)) (fd_lower f) (fd_upper f)
+       (fd_ordered f) (fd_unique f) (fd_ref f && fd_cont f) (fd_default f).
+
+Definition feat_ns (i j0 : nat) (fs : list fdecl) : ns :=
+  map (fun jf => (fd_name (snd jf), VFeat (i, fst jf))) (number_from j0 fs).
+
+Definition mem_ns (ms : list (name * member)) : ns := map (fun km => (fst km, VMem (fst km) (snd km))) ms.
+
+Definition res_ns : ns := map (fun k => (k, VMem k MOther)) reserved.
+
+Definition INIT : name := of_string "__init__".
+
+Lemma overwrite_fresh d :
+  (forall k, In k reserved -> ~ In k (map fst d)) -> overwrite_reserved d = d ++ res_ns.
+Proof.
+  intros H. unfold overwrite_reserved, res_ns, reserved. cbn [map fold_left].
+  rewrite (dict_set_fresh (of_string "dyn_inst") _ d); [|apply H; cbn; tauto].
+  rewrite (dict_set_fresh (of_string "eClass") _ (d ++ _)).
+  2:{ rewrite map_app. intros Hin. apply in_app_or in Hin. destruct Hin as [Hin|[E|[]]].
+      - revert Hin. apply H. cbn. tauto.
+      - vm_compute in E. discriminate E. }
+  rewrite (dict_set_fresh (of_string "_staticEClass") _ ((d ++ _) ++ _)).
+  2:{ rewrite !map_app. intros Hin. apply in_app_or in Hin. destruct Hin as [Hin|[E|[]]].
+      - apply in_app_or in Hin. destruct Hin as [Hin|[E|[]]].
+        + revert Hin. apply H. cbn. tauto.
+        + vm_compute in E. discriminate E.
+      - vm_compute in E. discriminate E. }
+  rewrite <- !app_assoc. reflexivity.
+Qed.
+
+Lemma promote_feats_app i : forall d1 d2 h acc,
+  promote_feats i (d1 ++ d2) h acc =
+  let '(h1, acc1) := promote_feats i d1 h acc in promote_feats i d2 h1 acc1.
+Proof.
+  induction d1 as [|[k v] r IH]; intros d2 h acc; simpl; [reflexivity|].
+  destruct v; apply IH.
+Qed.
+
+Lemma promote_feats_mems i : forall (d : ns) h acc,
+  (forall k v, In (k, v) d -> exists f m, v = VMem f m) -> promote_feats i d h acc = (h, acc).
+Proof.
+  induction d as [|[k v] r IH]; intros h acc H; simpl; [reflexivity|].
+  destruct (H k v (or_introl eq_refl)) as (f & m & ->). apply IH. intros k' v' Hin. apply (H k' v'). right. assumption.
+Qed.
+
+Section Static.
+  Variable D : descr.
+  Hypothesis W : WF D.
+  Variable deco : bool.
+  Let cs := d_classes D.
+  Let T := d_types D.
+
+  (* after EAttribute(..)/EReference(..): no name, no owner; references get their type later *)
+  Definition st_pre_obj (f : fdecl) : fobj :=
+    mkO None (fd_ref f) (if fd_ref f then None else Some (TyData (fd_type f))) (fd_lower f) (fd_upper f)
+        (fd_ordered f) (fd_unique f) (fd_ref f && fd_cont f) None
+        (if fd_ref f then None else attr_default T f) None.
+
+  (* after _promote *)
+  Definition st_obj (i : nat) (f : fdecl) : fobj :=
+    base_obj T i f (if fd_ref f then None else Some (TyData (fd_type f))).
+
+  Lemma promote_st_obj i f : promote_feat i (fd_name f) (st_pre_obj f) = st_obj i f.
+  Proof. reflexivity. Qed.
+
+  Lemma new_feature_ok i c f : nth_error cs i = Some c -> In f (cd_feats c) ->
+    new_feature T (fe_of f) = Some (st_pre_obj f).
+  Proof.
+    intros Hc Hf. pose proof (wf_feats D W i c f Hc Hf) as Wf. unfold wf_feat in Wf.
+    apply andb_true_iff in Wf. destruct Wf as [_ Wf]. fold T in Wf.
+    unfold new_feature, fe_of, st_pre_obj, attr_default. cbn [fe_ref fe_type fe_default fe_name fe_lower fe_upper fe_ordered fe_unique fe_cont].
+    destruct (fd_ref f).
+    - rewrite !andb_true_iff in Wf. destruct Wf as [[_ W2] _]. destruct (fd_default f); [discriminate|]. reflexivity.
+    - rewrite !andb_true_iff in Wf. destruct Wf as [[W1 _] _].
+      destruct (lookup_type T (fd_type f)); [|discriminate]. reflexivity.
+  Qed.
+
+  Lemma feat_key_ok i c f : nth_error cs i = Some c -> In f (cd_feats c) ->
+    starts_dunder (fd_name f) = false /\ ~ In (fd_name f) reserved.
+  Proof.
+    intros Hc Hf. pose proof (wf_feats D W i c f Hc Hf) as Wf. unfold wf_feat, key_ok in Wf.
+    rewrite !andb_true_iff in Wf. destruct Wf as [[K1 K2] _].
+    apply negb_true_iff in K1, K2. split; [assumption|apply nmem_false; assumption].
+  Qed.
+
+  Lemma op_key_ok i c o : nth_error cs i = Some c -> In o (cd_ops c) ->
+    starts_dunder (fst o) = false /\ ~ In (fst o) reserved.
+  Proof.
+    intros Hc Ho. pose proof (wf_ops D W i c o Hc Ho) as Wo. unfold wf_op, key_ok in Wo.
+    rewrite !andb_true_iff in Wo. destruct Wo as [[[[K1 K2] _] _] _].
+    apply negb_true_iff in K1, K2. split; [assumption|apply nmem_false; assumption].
+  Qed.
+
+  Lemma eval_body_feats cn i : forall fs rest d row,
+    (forall f, In f fs -> new_feature T (fe_of f) = Some (st_pre_obj f)) ->
+    (forall f, In f fs -> starts_dunder (fd_name f) = false) ->
+    NoDup (map fst d ++ map fd_name fs) ->
+    eval_body T cn i (map feat_entry fs ++ rest) d row =
+    eval_body T cn i rest (d ++ feat_ns i (length row) fs) (row ++ map st_pre_obj fs).
+  Proof.
+    induction fs as [|f r IH]; intros rest d row NF DU ND.
+    - unfold feat_ns. simpl. rewrite !app_nil_r. reflexivity.
+    - cbn [map app]. change (feat_entry f) with (EFeat (fd_name f) (fe_of f)). cbn [eval_body].
+      rewrite (NF f (or_introl eq_refl)). rewrite (mangle_not_dunder _ _ (DU f (or_introl eq_refl))).
+      rewrite dict_set_fresh.
+      2:{ apply NoDup_remove_2 in ND. intros Hin. apply ND. apply in_or_app. left. assumption. }
+      rewrite IH.
+      + unfold feat_ns. cbn [number_from map fst snd]. rewrite app_length. cbn [length].
+        rewrite Nat.add_1_r. rewrite <- !app_assoc. reflexivity.
+      + intros f' Hf'. apply NF. right. assumption.
+      + intros f' Hf'. apply DU. right. assumption.
+      + rewrite map_app. cbn [map fst]. rewrite <- app_assoc. exact ND.
+  Qed.
+
+  Lemma eval_body_mems cn i : forall (ms : list (name * member)) d row,
+    (forall km, In km ms -> mangle cn (fst km) = fst km) ->
+    NoDup (map fst d ++ map fst ms) ->
+    eval_body T cn i (map (fun km => EMem (fst km) (snd km)) ms) d row = Some (d ++ mem_ns ms, row).
+  Proof.
+    induction ms as [|km r IH]; intros d row MG ND.
+    - simpl. rewrite app_nil_r. reflexivity.
+    - cbn [map eval_body]. rewrite (MG km (or_introl eq_refl)). rewrite dict_set_fresh.
+      2:{ apply NoDup_remove_2 in ND. intros Hin. apply ND. apply in_or_app. left. assumption. }
+      rewrite IH.
+      + unfold mem_ns. cbn [map]. rewrite <- app_assoc. reflexivity.
+      + intros km' H'. apply MG. right. assumption.
+      + rewrite map_app. cbn [map fst]. rewrite <- app_assoc. exact ND.
+  Qed.
+
+  Lemma promote_feats_row i : forall fs (H : heap) pre acc,
+    length H = i ->
+    promote_feats i (feat_ns i (length pre) fs) (H ++ [pre ++ map st_pre_obj fs]) acc =
+    (H ++ [pre ++ map (st_obj i) fs],
+     acc ++ map (fun jf => (i, fst jf)) (number_from (length pre) fs)).
+  Proof.
+    induction fs as [|f r IH]; intros H pre acc L.
+    - unfold feat_ns. simpl. rewrite !app_nil_r. reflexivity.
+    - unfold feat_ns. cbn [number_from map fst snd promote_feats].
+      assert (U : upd_loc (i, length pre) (promote_feat i (fd_name f)) (H ++ [pre ++ st_pre_obj f :: map st_pre_obj r])
+                  = H ++ [(pre ++ [st_obj i f]) ++ map st_pre_obj r]).
+      { unfold upd_loc. cbn [fst snd]. rewrite <- L. rewrite upd_nth_app. rewrite upd_nth_app.
+        rewrite promote_st_obj. rewrite <- app_assoc. reflexivity. }
+      rewrite U. pose proof (IH H (pre ++ [st_obj i f]) (acc ++ [(i, length pre)]) L) as IH'.
+      rewrite app_length in IH'. cbn [length] in IH'. rewrite Nat.add_1_r in IH'.
+      unfold feat_ns in IH'. etransitivity; [exact IH'|]. rewrite <- !app_assoc. reflexivity.
+  Qed.
+End Static.
+
+Lemma dup_bases_names l : dup_bases (map BName l) = has_dup l.
+Proof.
+  induction l as [|x r IH]; simpl; [reflexivity|]. rewrite IH. f_equal.
+  unfold nmem. clear IH. induction r as [|y r IH]; simpl; [reflexivity|]. rewrite IH. reflexivity.
+Qed.
+
+Lemma no_bobject_names l : existsb is_bobject (map BName l) = false.
+Proof. induction l as [|x r IH]; simpl; [reflexivity|assumption]. Qed.
+
+Lemma nth_error_middle {A} (a : list A) x b : nth_error (a ++ x :: b) (length a) = Some x.
+Proof. induction a as [|y a IH]; simpl; [reflexivity|assumption]. Qed.
+
+Section Static2.
+  Variable D : descr.
+  Hypothesis W : WF D.
+  Variable deco : bool.
+  Let cs := d_classes D.
+  Let T := d_types D.
+
+  Definition mems_of (c : cdecl) : list (name * member) :=
+    map (fun o : odecl => (fst o, MFunc (op_spec o))) (cd_ops c)
+    ++ (if deco then [] else [(INIT, MFunc (mkSpec [SELF] []))]).
+
+  Definition st_ns (i : nat) (c : cdecl) : ns :=
+    (feat_ns i O (cd_feats c) ++ mem_ns (mems_of c)) ++ res_ns.
+
+  Definition st_ecl (i : nat) (c : cdecl) : eclass :=
+    mkE (cd_name c) (cd_abstract c) (map (cls_idx cs) (cd_supers c))
+        (map (fun jf => (i, fst jf)) (number_from O (cd_feats c)))
+        (promote_ns (ns_members (st_ns i c))).
+
+  Definition st_scope (D1 : list cdecl) : pyscope :=
+    map (fun ic => (cd_name (snd ic), (fst ic, st_ns (fst ic) (snd ic)))) (number_from O D1).
+
+  Definition st_state (D1 : list cdecl) : sstate :=
+    mkS (mkW (map (fun ic => map (st_obj D (fst ic)) (cd_feats (snd ic))) (number_from O D1))
+             (map (fun ic => st_ecl (fst ic) (snd ic)) (number_from O D1)))
+        (st_scope D1).
+
+  Lemma body_render c :
+    py_body (render_class deco c) =
+    map feat_entry (cd_feats c) ++ map (fun km => EMem (fst km) (snd km)) (mems_of c).
+  Proof.
+    unfold render_class, mems_of. cbn [py_body]. f_equal. rewrite map_app, map_map. f_equal.
+    destruct deco; reflexivity.
+  Qed.
+
+  Lemma In_scope D1 n v :
+    In (n, v) (st_scope D1) <-> exists j c, nth_error D1 j = Some c /\ n = cd_name c /\ v = (j, st_ns j c).
+  Proof.
+    unfold st_scope. rewrite in_map_iff. split.
+    - intros ([j c] & E & Hin). simpl in E. inversion E; subst. apply In_number_from in Hin.
+      destruct Hin as (j' & -> & Hj). exists j', c. repeat split. assumption.
+    - intros (j & c & Hj & -> & ->). exists (j, c). split; [reflexivity|]. apply In_number_from.
+      exists j. split; [reflexivity|assumption].
+  Qed.
+
+  Lemma lookup_py_at D1 D2 j c : cs = D1 ++ D2 -> nth_error D1 j = Some c ->
+    lookup_py (st_scope D1) (cd_name c) = Some (j, st_ns j c).
+  Proof.
+    intros Ecs Hj. unfold lookup_py. apply (assoc_last_functional name_eqb name_eqb_eq).
+    - apply In_scope. exists j, c. repeat split. assumption.
+    - intros v Hin. apply In_scope in Hin. destruct Hin as (j' & c' & Hj' & En & ->).
+      assert (A : nth_error cs j = Some c).
+      { rewrite Ecs, nth_error_app1; [assumption|]. apply nth_error_Some. congruence. }
+      assert (A' : nth_error cs j' = Some c').
+      { rewrite Ecs, nth_error_app1; [assumption|]. apply nth_error_Some. congruence. }
+      assert (j = j') by (apply (class_name_inj D W j j' c c' A A' En)). subst j'.
+      assert (c' = c) by congruence. subst c'. reflexivity.
+  Qed.
+
+  Lemma promote_supers_names py : forall ss acc,
+    (forall s, In s ss -> exists v, lookup_py py s = Some (cls_idx cs s, v)) ->
+    promote_supers py (map BName ss) acc = fold_left (fun acc j => oset_add j acc) (map (cls_idx cs) ss) acc.
+  Proof.
+    induction ss as [|s r IH]; intros acc H; simpl; [reflexivity|].
+    destruct (H s (or_introl eq_refl)) as (v & ->). apply IH. intros s' Hs'. apply H. right. assumption.
+  Qed.
+
+  (* a supertype of the class at the end of prefix D1 is bound in the scope of D1 *)
+  Lemma super_bound D1 c D2 s : cs = D1 ++ c :: D2 -> In s (cd_supers c) ->
+    exists v, lookup_py (st_scope D1) s = Some (cls_idx cs s, v).
+  Proof.
+    intros Ecs Hs. assert (Hc : nth_error cs (length D1) = Some c) by (rewrite Ecs; apply nth_error_middle).
+    destruct (super_is_class D W (length D1) c s Hc Hs) as (j & c' & Hj & <- & Lt).
+    assert (Hj1 : nth_error D1 j = Some c').
+    { fold cs in Hj. rewrite Ecs, nth_error_app1 in Hj; assumption. }
+    pose proof (cls_idx_at D W j c' Hj) as CI. fold cs in CI. rewrite CI. eexists. apply (lookup_py_at D1 (c :: D2) j c' Ecs Hj1).
+  Qed.
+
+  Lemma header_ok_render D1 c D2 : cs = D1 ++ c :: D2 -> header_ok (st_scope D1) (render_class deco c) = true.
+  Proof.
+    intros Ecs. assert (Hc : nth_error cs (length D1) = Some c) by (rewrite Ecs; apply nth_error_middle).
+    unfold header_ok, render_class. cbn [py_bases py_style]. destruct (cd_supers c) as [|s ss] eqn:Es.
+    - destruct deco; reflexivity.
+    - rewrite dup_bases_names. pose proof (wf_sup_nodup D W _ c Hc) as ND. rewrite Es in ND.
+      apply has_dup_NoDup in ND. rewrite ND. rewrite no_bobject_names. cbn [negb andb].
+      apply andb_true_iff. split; [|reflexivity].
+      apply forallb_forall. intros b Hb. apply in_map_iff in Hb. destruct Hb as (s' & <- & Hs').
+      rewrite <- Es in Hs'. destruct (super_bound D1 c D2 s' Ecs Hs') as (v & ->). reflexivity.
+  Qed.
+  Lemma keys_nodup i c : nth_error cs i = Some c ->
+    NoDup (map fd_name (cd_feats c) ++ map fst (mems_of c)).
+  Proof.
+    intros Hc. pose proof (wf_keys D W i c Hc) as ND. unfold mems_of. rewrite map_app, map_map. cbn [fst].
+    destruct deco; cbn [map]; [rewrite app_nil_r; exact ND|]. rewrite app_assoc. apply NoDup_snoc; [exact ND|].
+    intros Hin. apply in_app_or in Hin. destruct Hin as [Hin|Hin]; apply in_map_iff in Hin.
+    - destruct Hin as (f & E & Hf). destruct (feat_key_ok D W i c f Hc Hf) as [K _]. rewrite E in K. discriminate K.
+    - destruct Hin as (o & E & Ho). destruct (op_key_ok D W i c o Hc Ho) as [K _]. rewrite E in K. discriminate K.
+  Qed.
+
+  Lemma keys_not_reserved i c k : nth_error cs i = Some c -> In k reserved ->
+    ~ In k (map fst (feat_ns i O (cd_feats c) ++ mem_ns (mems_of c))).
+  Proof.
+    intros Hc Hk Hin. rewrite map_app in Hin. apply in_app_or in Hin. destruct Hin as [Hin|Hin].
+    - unfold feat_ns in Hin. rewrite map_map in Hin. apply in_map_iff in Hin. destruct Hin as ([j f] & E & Hjf).
+      simpl in E. apply In_number_from in Hjf. destruct Hjf as (j' & _ & Hj').
+      destruct (feat_key_ok D W i c f Hc (nth_error_In _ _ Hj')) as [_ K]. apply K. rewrite E. assumption.
+    - unfold mem_ns, mems_of in Hin. rewrite map_map, map_app, map_map in Hin. cbn [fst] in Hin.
+      apply in_app_or in Hin. destruct Hin as [Hin|Hin].
+      + apply in_map_iff in Hin. destruct Hin as (o & E & Ho).
+        destruct (op_key_ok D W i c o Hc Ho) as [_ K]. apply K. rewrite E. assumption.
+      + destruct deco; [destruct Hin|]. destruct Hin as [E|[]]. subst k. vm_compute in Hk.
+        destruct Hk as [E|[E|[E|[]]]]; discriminate E.
+  Qed.
+
+  Lemma members_are_members c k v : In (k, v) (mem_ns (mems_of c) ++ res_ns) -> exists f m, v = VMem f m.
+  Proof.
+    intros Hin. apply in_app_or in Hin. destruct Hin as [Hin|Hin]; apply in_map_iff in Hin.
+    - destruct Hin as (km & E & _). inversion E; subst. eexists _, _. reflexivity.
+    - destruct Hin as (r & E & _). inversion E; subst. eexists _, _. reflexivity.
+  Qed.
+
+  Lemma exec_class_step D1 c D2 : cs = D1 ++ c :: D2 ->
+    exec_class T (render_class deco c) (st_state D1) = Some (st_state (D1 ++ [c])).
+  Proof.
+    intros Ecs. set (i := length D1).
+    assert (Hc : nth_error cs i = Some c) by (rewrite Ecs; apply nth_error_middle).
+    assert (Li : length (st_scope D1) = i) by (unfold st_scope; rewrite map_length, length_number_from; reflexivity).
+    unfold exec_class. cbn [s_py st_state s_world w_heap w_ecl]. rewrite Li.
+    rewrite (header_ok_render D1 c D2 Ecs). cbn [negb].
+    rewrite body_render.
+    rewrite (eval_body_feats D (cd_name c) i (cd_feats c) _ [] []).
+    2:{ intros f Hf. apply (new_feature_ok D W i c f Hc Hf). }
+    2:{ intros f Hf. apply (feat_key_ok D W i c f Hc Hf). }
+    2:{ cbn [map app]. pose proof (keys_nodup i c Hc) as ND. apply NoDup_app_inv in ND. apply ND. }
+    cbn [app length].
+    rewrite eval_body_mems.
+    2:{ intros km Hin. unfold mems_of in Hin. apply in_app_or in Hin. destruct Hin as [Hin|Hin].
+        - apply in_map_iff in Hin. destruct Hin as (o & <- & Ho). cbn [fst].
+          apply mangle_not_dunder. apply (op_key_ok D W i c o Hc Ho).
+        - destruct deco; [destruct Hin|]. destruct Hin as [<-|[]]. reflexivity. }
+    2:{ unfold feat_ns. rewrite map_map. cbn [fst].
+        replace (map (fun x : nat * fdecl => fd_name (snd x)) (number_from 0 (cd_feats c)))
+          with (map fd_name (cd_feats c)); [apply (keys_nodup i c Hc)|].
+        generalize O. induction (cd_feats c) as [|f r IH]; intros n; simpl; [reflexivity|]. f_equal. apply IH. }
+    rewrite (overwrite_fresh _ (fun k Hk => keys_not_reserved i c k Hc Hk)).
+    change ((feat_ns i 0 (cd_feats c) ++ mem_ns (mems_of c)) ++ res_ns) with (st_ns i c).
+    assert (PF : promote_feats i (st_ns i c)
+                   (map (fun ic => map (st_obj D (fst ic)) (cd_feats (snd ic))) (number_from 0 D1)
+                    ++ [map (st_pre_obj D) (cd_feats c)]) []
+                 = (map (fun ic => map (st_obj D (fst ic)) (cd_feats (snd ic))) (number_from 0 D1)
+                    ++ [map (st_obj D i) (cd_feats c)],
+                    map (fun jf => (i, fst jf)) (number_from 0 (cd_feats c)))).
+    { unfold st_ns. rewrite <- app_assoc. rewrite promote_feats_app.
+      pose proof (promote_feats_row D i (cd_feats c)
+                    (map (fun ic => map (st_obj D (fst ic)) (cd_feats (snd ic))) (number_from 0 D1)) [] []) as PR.
+      cbn [length app] in PR. rewrite PR; [|rewrite map_length, length_number_from; reflexivity].
+      apply promote_feats_mems. intros k v Hin. apply (members_are_members c k v Hin). }
+    rewrite PF.
+    assert (PS : promote_supers (st_scope D1) (effective_bases (render_class deco c)) []
+                 = map (cls_idx cs) (cd_supers c)).
+    { unfold effective_bases, render_class. cbn [py_style py_bases].
+      destruct (cd_supers c) as [|s ss] eqn:Es.
+      - destruct deco; reflexivity.
+      - rewrite promote_supers_names.
+        + rewrite fold_oset_add_nodup; [reflexivity|]. cbn [app]. rewrite <- Es. apply (supers_idx_nodup D W i c Hc).
+        + intros s' Hs'. rewrite <- Es in Hs'. apply (super_bound D1 c D2 s' Ecs Hs'). }
+    rewrite PS.
+    unfold st_state, st_scope. rewrite !number_from_app, !map_app. cbn [number_from map fst snd Nat.add].
+    fold i. reflexivity.
+  Qed.
+
+  Lemma exec_classes_all : forall D2 D1, cs = D1 ++ D2 ->
+    exec_classes T (map (render_class deco) D2) (st_state D1) = Some (st_state (D1 ++ D2)).
+  Proof.
+    induction D2 as [|c r IH]; intros D1 Ecs; simpl.
+    - rewrite app_nil_r. reflexivity.
+    - rewrite (exec_class_step D1 c r Ecs). rewrite (IH (D1 ++ [c])).
+      + rewrite <- app_assoc. reflexivity.
+      + rewrite <- app_assoc. exact Ecs.
+  Qed.
+End Static2.
+
+(* ---------- the module-level statements ---------- *)
+
+Lemma exec_post_app py T : forall a b h,
+  exec_post py T (a ++ b) h = match exec_post py T a h with Some h' => exec_post py T b h' | None => None end.
+Proof.
+  induction a as [|s r IH]; intros b h; simpl; [reflexivity|].
+  destruct (exec_stmt py T s h); [apply IH|reflexivity].
+Qed.
+
+Lemma exec_post_opps py T : forall L h,
+  exec_post py T (map (fun p => SSetOpp (fst p) (snd p)) L) h = exec_opps (resolve_s py) L h.
+Proof.
+  induction L as [|[a b] r IH]; intros h; simpl; [reflexivity|].
+  destruct (resolve_s py a); [|reflexivity]. destruct (resolve_s py b); [|reflexivity]. apply IH.
+Qed.
+
+Lemma same_pair_inv p q : same_pair p q = true -> q = p \/ q = (snd p, fst p).
+Proof.
+  destruct p as [a b], q as [c d]. unfold same_pair. simpl. rewrite orb_true_iff, !andb_true_iff, !qname_eqb_eq.
+  intros [[-> ->]|[-> ->]]; [left|right]; reflexivity.
+Qed.
+
+Lemma dedup_sub : forall l seen x, In x (dedup_pairs seen l) -> In x l.
+Proof.
+  induction l as [|p r IH]; intros seen x H; simpl in *; [assumption|].
+  destruct (existsb (same_pair p) seen).
+  - right. apply (IH _ _ H).
+  - destruct H as [->|H]; [left; reflexivity|right; apply (IH _ _ H)].
+Qed.
+
+Lemma dedup_cover : forall l seen x, In x l ->
+  (exists y, In y seen /\ same_pair x y = true) \/ (exists y, In y (dedup_pairs seen l) /\ same_pair x y = true).
+Proof.
+  induction l as [|p r IH]; intros seen x H; [destruct H|]. simpl.
+  destruct (existsb (same_pair p) seen) eqn:E.
+  - destruct H as [->|H]; [|apply IH; assumption]. left. apply existsb_exists in E. exact E.
+  - destruct H as [->|H].
+    + right. exists x. split; [left; reflexivity|]. destruct x as [a b]. unfold same_pair. simpl.
+      assert (Ra : qname_eqb a a = true) by (apply qname_eqb_eq; reflexivity).
+      assert (Rb : qname_eqb b b = true) by (apply qname_eqb_eq; reflexivity). rewrite Ra, Rb. reflexivity.
+    + destruct (IH (p :: seen) x H) as [(y & [->|Hy] & S)|(y & Hy & S)].
+      * right. exists y. split; [left; reflexivity|assumption].
+      * left. exists y. split; assumption.
+      * right. exists y. split; [right; assumption|assumption].
+Qed.
+
+Lemma dict_get_app_l {V} (k : name) (v : V) : forall a b, dict_get a k = Some v -> dict_get (a ++ b) k = Some v.
+Proof.
+  induction a as [|[k' v'] r IH]; intros b H; simpl in *; [discriminate|].
+  destruct (name_eqb k k'); [assumption|apply IH; assumption].
+Qed.
+
+Lemma feat_ns_keys i : forall fs j0, map fst (feat_ns i j0 fs) = map fd_name fs.
+Proof.
+  unfold feat_ns. induction fs as [|f r IH]; intros j0; simpl; [reflexivity|]. f_equal. apply IH.
+Qed.
+
+Lemma set_type_base T i f t : set_type t (base_obj T i f None) = base_obj T i f (Some t).
+Proof. reflexivity. Qed.
+
+Section Static3.
+  Variable D : descr.
+  Hypothesis W : WF D.
+  Variable deco : bool.
+  Let cs := d_classes D.
+  Let T := d_types D.
+  Let scope := st_scope deco cs.
+  Let H0 := w_heap (s_world (st_state D deco cs)).
+
+  Lemma get_st_heap i c j f : nth_error cs i = Some c -> nth_error (cd_feats c) j = Some f ->
+    get_loc (i, j) H0 = Some (st_obj D i f).
+  Proof.
+    intros Hc Hf. unfold H0, st_state, get_loc. cbn [s_world w_heap fst snd].
+    rewrite nth_error_map, nth_error_number_from, Hc. simpl. rewrite nth_error_map, Hf. reflexivity.
+  Qed.
+
+  Lemma lookup_scope_at i c : nth_error cs i = Some c -> lookup_py scope (cd_name c) = Some (i, st_ns deco i c).
+  Proof.
+    intros Hc. apply (lookup_py_at D W deco cs [] i c); [|assumption]. rewrite app_nil_r. reflexivity.
+  Qed.
+
+  Lemma resolve_s_at p c f : at_loc cs p c f -> resolve_s scope (cd_name c, fd_name f) = Some p.
+  Proof.
+    intros [Hc Hf]. destruct p as [i j]. simpl in Hc, Hf. unfold resolve_s. cbn [fst snd].
+    rewrite (lookup_scope_at i c Hc). unfold st_ns. rewrite <- app_assoc.
+    rewrite (dict_get_app_l (fd_name f) (VFeat (i, j))); [reflexivity|].
+    apply dict_get_in.
+    - rewrite feat_ns_keys. pose proof (wf_keys D W i c Hc) as ND. apply NoDup_app_inv in ND. apply ND.
+    - unfold feat_ns. apply in_map_iff. exists (j, f). split; [reflexivity|]. apply In_number_from.
+      exists j. split; [reflexivity|assumption].
+  Qed.
+
+  Lemma type_is_class i c f : nth_error cs i = Some c -> In f (cd_feats c) -> fd_ref f = true ->
+    exists v, lookup_py scope (fd_type f) = Some (cls_idx cs (fd_type f), v).
+  Proof.
+    intros Hc Hf Rf. pose proof (wf_feats D W i c f Hc Hf) as Wf. unfold wf_feat in Wf. rewrite Rf in Wf.
+    rewrite !andb_true_iff in Wf. destruct Wf as [_ [[W1 _] _]]. fold cs in W1.
+    destruct (lookup_cls cs (fd_type f)) as [jt|] eqn:L; [|discriminate].
+    destruct (lookup_cls_some D _ _ L) as (ct & Hct & E). fold cs in Hct.
+    unfold cls_idx. rewrite L. rewrite <- E. eexists. apply (lookup_scope_at jt ct Hct).
+  Qed.
+
+  Definition type_writes (l : list stmt) : list write :=
+    flat_map (fun s => match s with
+                       | SSetType c k t =>
+                         match resolve_s scope (c, k), lookup_py scope t with
+                         | Some p, Some (j, _) => [(p, set_type (TyClass j))]
+                         | _, _ => []
+                         end
+                       | _ => []
+                       end) l.
+
+  Lemma In_type_stmts s :
+    In s (type_stmts cs) <-> exists p c f, at_loc cs p c f /\ fd_ref f = true /\
+                                            s = SSetType (cd_name c) (fd_name f) (fd_type f).
+  Proof.
+    unfold type_stmts. rewrite in_flat_map. split.
+    - intros (c & Hc & Hin). apply in_flat_map in Hin. destruct Hin as (f & Hf & Hin).
+      destruct (fd_ref f) eqn:Rf; [|destruct Hin]. destruct Hin as [<-|[]].
+      apply In_nth_error in Hc. destruct Hc as [i Hi]. apply In_nth_error in Hf. destruct Hf as [j Hj].
+      exists (i, j), c, f. split; [split; assumption|]. split; [assumption|reflexivity].
+    - intros ([i j] & c & f & [Hc Hf] & Rf & ->). simpl in *. exists c. split; [eapply nth_error_In; eassumption|].
+      apply in_flat_map. exists f. split; [eapply nth_error_In; eassumption|]. rewrite Rf. left. reflexivity.
+  Qed.
+
+  Lemma exec_types : forall l h, (forall s, In s l -> In s (type_stmts cs)) ->
+    exec_post scope T l h = Some (apply_writes (type_writes l) h).
+  Proof.
+    induction l as [|s r IH]; intros h Sub; [reflexivity|].
+    destruct (proj1 (In_type_stmts s) (Sub s (or_introl eq_refl))) as (p & c & f & A & Rf & ->).
+    destruct A as [Hc Hf].
+    destruct (type_is_class (fst p) c f Hc (nth_error_In _ _ Hf) Rf) as (v & Lk).
+    cbn [exec_post exec_stmt type_writes flat_map].
+    rewrite (resolve_s_at p c f (conj Hc Hf)), Lk.
+    rewrite IH; [|intros s' Hs'; apply Sub; right; assumption].
+    unfold apply_writes. rewrite fold_left_app. reflexivity.
+  Qed.
+
+  (* after the eType assignments every feature is as the dynamic constructor makes it *)
+  Lemma types_phase :
+    exists h1, exec_post scope T (type_stmts cs) H0 = Some h1 /\
+      forall p c f, at_loc cs p c f -> get_loc p h1 = Some (pre_opp D (fst p) f).
+  Proof.
+    eexists. split; [apply exec_types; intros s Hs; exact Hs|].
+    intros [i j] c f [Hc Hf]. simpl in Hc, Hf. rewrite get_apply_writes, (get_st_heap i c j f Hc Hf). simpl. f_equal.
+    assert (Inv : forall w, In w (type_writes (type_stmts cs)) -> fst w = (i, j) ->
+                  fd_ref f = true /\ snd w = set_type (TyClass (cls_idx cs (fd_type f)))).
+    { intros w Hw Hfst. unfold type_writes in Hw. apply in_flat_map in Hw. destruct Hw as (s & Hs & Hw).
+      apply In_type_stmts in Hs. destruct Hs as (p' & c' & f' & A' & Rf' & ->).
+      rewrite (resolve_s_at p' c' f' A') in Hw.
+      destruct (type_is_class (fst p') c' f' (proj1 A') (nth_error_In _ _ (proj2 A')) Rf') as (v & Lk).
+      rewrite Lk in Hw. destruct Hw as [<-|[]]. simpl in Hfst. subst p'.
+      destruct (at_loc_fun cs (i, j) c f c' f' (conj Hc Hf) A') as [-> ->]. split; [assumption|reflexivity]. }
+    unfold pre_opp, st_obj, fin_type. destruct (fd_ref f) eqn:Rf.
+    - rewrite (fold_effect_const (i, j) (set_type (TyClass (cls_idx cs (fd_type f))))); [| |reflexivity].
+      + assert (Tt : existsb (touches (i, j)) (type_writes (type_stmts cs)) = true).
+        { apply existsb_exists. exists ((i, j), set_type (TyClass (cls_idx cs (fd_type f)))). split.
+          - unfold type_writes. apply in_flat_map. exists (SSetType (cd_name c) (fd_name f) (fd_type f)). split.
+            + apply In_type_stmts. exists (i, j), c, f. split; [split; assumption|]. split; [assumption|reflexivity].
+            + rewrite (resolve_s_at (i, j) c f (conj Hc Hf)).
+              destruct (type_is_class i c f Hc (nth_error_In _ _ Hf) Rf) as (v & ->). left. reflexivity.
+          - unfold touches. simpl. destruct (loc_eq_dec (i, j) (i, j)); [reflexivity|congruence]. }
+        rewrite Tt. apply set_type_base.
+      + intros w Hw Hfst o. destruct (Inv w Hw Hfst) as [_ ->]. reflexivity.
+    - rewrite (fold_effect_const (i, j) (fun o => o)); [destruct (existsb _ _); reflexivity| |reflexivity].
+      intros w Hw Hfst o. destruct (Inv w Hw Hfst) as [X _]. discriminate X.
+  Qed.
+
+  Theorem static_realises : exists w, promote (render_static deco D) = Some w /\ realises D w.
+  Proof.
+    unfold promote, render_static. cbn [m_types m_classes m_post]. fold cs. fold T.
+    pose proof (exec_classes_all D W deco cs [] eq_refl) as EC. fold T in EC. cbn [app] in EC.
+    change (mkS (mkW [] []) []) with (st_state D deco []). rewrite EC.
+    cbn [s_py st_state]. fold scope. fold H0.
+    rewrite exec_post_app. destruct types_phase as (h1 & E1 & P1). rewrite E1.
+    rewrite exec_post_opps.
+    destruct (opp_phase D W (resolve_s scope) resolve_s_at (dedup_pairs [] (all_opps cs))) with (h := h1)
+      as (h2 & E2 & P2).
+    - intros ab Hab. apply (dedup_sub _ _ _ Hab).
+    - intros a b Hab. destruct (dedup_cover (all_opps cs) [] (a, b) Hab) as [(y & [] & _)|(y & Hy & S)].
+      apply same_pair_inv in S. destruct S as [->| ->]; [left|right]; assumption.
+    - fold cs in E2. rewrite E2. eexists. split; [reflexivity|]. split.
+      + unfold st_state. cbn [w_ecl s_world]. rewrite map_length, length_number_from. reflexivity.
+      + intros i c Hc. fold cs in Hc. unfold st_state. cbn [w_ecl s_world w_heap]. rewrite nth_error_map, nth_error_number_from, Hc.
+        cbn [option_map Nat.add fst snd]. eexists. split; [reflexivity|]. unfold st_ecl. cbn [e_name e_abstract e_supers e_feats e_ops].
+        repeat split.
+        * unfold st_ns. rewrite <- app_assoc. unfold ns_members. rewrite !flat_map_app.
+          fold (ns_members (feat_ns i 0 (cd_feats c))).
+          assert (F0 : forall fs j0, flat_map (fun kv : name * value =>
+                         match snd kv with VMem f m => [(fst kv, f, m)] | VFeat _ => [] end) (feat_ns i j0 fs) = []).
+          { unfold feat_ns. induction fs as [|f r IH]; intros j0; simpl; [reflexivity|apply IH]. }
+          rewrite F0. cbn [app]. rewrite promote_ns_app.
+          assert (R0 : promote_ns (flat_map (fun kv : name * value =>
+                         match snd kv with VMem f m => [(fst kv, f, m)] | VFeat _ => [] end) res_ns) = []) by reflexivity.
+          rewrite R0, app_nil_r. unfold mems_of, mem_ns. rewrite map_app, flat_map_app, promote_ns_app.
+          assert (I0 : promote_ns (flat_map (fun kv : name * value =>
+                         match snd kv with VMem f m => [(fst kv, f, m)] | VFeat _ => [] end)
+                         (map (fun km : name * member => (fst km, VMem (fst km) (snd km)))
+                              (if deco then [] else [(INIT, MFunc (mkSpec [SELF] []))]))) = [])
+            by (destruct deco; reflexivity).
+          rewrite I0, app_nil_r.
+          assert (O0 : flat_map (fun kv : name * value =>
+                         match snd kv with VMem f m => [(fst kv, f, m)] | VFeat _ => [] end)
+                         (map (fun km : name * member => (fst km, VMem (fst km) (snd km)))
+                              (map (fun o : odecl => (fst o, MFunc (op_spec o))) (cd_ops c)))
+                       = map (fun o : odecl => (fst o, fst o, MFunc (op_spec o))) (cd_ops c)).
+          { induction (cd_ops c) as [|o r IH]; simpl; [reflexivity|]. f_equal. apply IH. }
+          rewrite O0. rewrite promote_ns_ops; [|intros o Ho; apply (wf_ops D W i c o Hc Ho)].
+          rewrite map_map. rewrite <- (map_id (cd_ops c)) at 2. apply map_ext_in. intros o Ho.
+          apply describe_promoted_op. apply (wf_ops D W i c o Hc Ho).
+        * intros j f Hf. rewrite (P2 (i, j) c f (pre_opp D i f) (conj Hc Hf) (P1 (i, j) c f (conj Hc Hf))). reflexivity.
+  Qed.
+End Static3.
+
+(* ---------- the theorems ---------- *)
+
+Theorem static_dynamic_canonical D deco :
+  wf_descr D = true ->
+  exists ws wd, promote (render_static deco D) = Some ws /\ build_dynamic D = Some wd /\
+                describe ws = canonical D /\ describe wd = canonical D.
+Proof.
+  intros H. apply wf_descr_WF in H.
+  destruct (static_realises D H deco) as (ws & Es & Rs).
+  destruct (dynamic_realises D H) as (wd & Ed & Rd).
+  exists ws, wd. repeat split; try assumption.
+  - apply (realises_describe D H ws Rs).
+  - apply (realises_describe D H wd Rd).
+Qed.
+
+Corollary static_dynamic_coincide D deco :
+  wf_descr D = true ->
+  option_map describe (promote (render_static deco D)) = option_map describe (build_dynamic D)
+  /\ option_map describe (build_dynamic D) = Some (canonical D).
+Proof.
+  intros H. destruct (static_dynamic_canonical D deco H) as (ws & wd & -> & -> & E1 & E2).
+  simpl. rewrite E1, E2. split; reflexivity.
+Qed.
+
+(* ---------- what _promote takes from ANY class body, and what it never takes ---------- *)
+
+Definition feat_locs (d : ns) : list loc :=
+  flat_map (fun kv => match snd kv with VFeat l => [l] | VMem _ _ => [] end) d.
+
+Lemma promote_feats_locs i : forall d h acc, snd (promote_feats i d h acc) = acc ++ feat_locs d.
+Proof.
+  induction d as [|[k v] r IH]; intros h acc; simpl; [rewrite app_nil_r; reflexivity|].
+  destruct v as [l|f m]; simpl.
+  - rewrite IH. rewrite <- app_assoc. reflexivity.
+  - apply IH.
+Qed.
+
+(* the features of the class are the feature-valued entries of its namespace (after the names
+   _promote itself assigns), in namespace order; its operations are Operations.promote_ns of the rest *)
+Theorem class_takes_exactly T c s s' :
+  exec_class T c s = Some s' ->
+  exists d row e, eval_body T (py_name c) (length (s_py s)) (py_body c) [] [] = Some (d, row) /\
+    w_ecl (s_world s') = w_ecl (s_world s) ++ [e] /\
+    e_feats e = feat_locs (overwrite_reserved d) /\
+    e_ops e = promote_ns (ns_members (overwrite_reserved d)).
+Proof.
+  unfold exec_class. destruct (negb (header_ok (s_py s) c)); [discriminate|].
+  destruct (eval_body T (py_name c) (length (s_py s)) (py_body c) [] []) as [[d row]|]; [|discriminate].
+  destruct (promote_feats (length (s_py s)) (overwrite_reserved d) (w_heap (s_world s) ++ [row]) []) as [h2 feats] eqn:PF.
+  intros E. inversion E; subst. exists d, row. eexists. split; [reflexivity|]. cbn [w_ecl s_world]. split; [reflexivity|].
+  cbn [e_feats e_ops]. split; [|reflexivity].
+  pose proof (promote_feats_locs (length (s_py s)) (overwrite_reserved d) (w_heap (s_world s) ++ [row]) []) as L.
+  rewrite PF in L. exact L.
+Qed.
+
+Lemma In_keys_dict_set {V} (k : name) (v : V) x : forall d,
+  In x (map fst (dict_set d k v)) -> x = k \/ In x (map fst d).
+Proof.
+  induction d as [|[k' v'] r IH]; simpl; [intros [<-|[]]; left; reflexivity|].
+  destruct (name_eqb k k'); simpl; [intros H; right; exact H|].
+  intros [<-|H]; [right; left; reflexivity|]. destruct (IH H); [left|right; right]; assumption.
+Qed.
+
+Lemma dict_set_keys_nodup {V} (k : name) (v : V) : forall d, NoDup (map fst d) -> NoDup (map fst (dict_set d k v)).
+Proof.
+  induction d as [|[k' v'] r IH]; intros ND; simpl; [constructor; [intros []|constructor]|].
+  inversion ND as [|? ? Hn Hr]; subst. destruct (name_eqb k k') eqn:E; simpl; [constructor; assumption|].
+  constructor; [|apply IH; assumption]. intros Hin. apply In_keys_dict_set in Hin. destruct Hin as [->|Hin].
+  - rewrite name_eqb_refl in E. discriminate.
+  - contradiction.
+Qed.
+
+Lemma dict_set_value {V} (k : name) (v v' : V) : forall d,
+  NoDup (map fst d) -> In (k, v') (dict_set d k v) -> v' = v.
+Proof.
+  induction d as [|[k' v0] r IH]; intros ND Hin; simpl in Hin.
+  - destruct Hin as [E|[]]. inversion E. reflexivity.
+  - inversion ND as [|? ? Hn Hr]; subst. destruct (name_eqb k k') eqn:E.
+    + apply name_eqb_eq in E. subst k'. destruct Hin as [E'|Hin]; [inversion E'; reflexivity|].
+      exfalso. apply Hn. apply in_map_iff. exists (k, v'). split; [reflexivity|assumption].
+    + destruct Hin as [E'|Hin]; [inversion E'; subst; rewrite name_eqb_refl in E; discriminate|].
+      apply IH; assumption.
+Qed.
+
+Lemma dict_set_other {V} (k : name) (v : V) x v' : forall d,
+  In (x, v') (dict_set d k v) -> x <> k -> In (x, v') d.
+Proof.
+  induction d as [|[k' v0] r IH]; intros Hin N; simpl in Hin.
+  - destruct Hin as [E|[]]. inversion E. congruence.
+  - destruct (name_eqb k k') eqn:E.
+    + apply name_eqb_eq in E. subst k'. destruct Hin as [E'|Hin]; [inversion E'; congruence|right; assumption].
+    + destruct Hin as [E'|Hin]; [left; assumption|right; apply IH; assumption].
+Qed.
+
+Lemma overwritten_not_feature k l : forall rs (d : ns),
+  NoDup (map fst d) -> In (k, VFeat l) (fold_left (fun d k => dict_set d k (VMem k MOther)) rs d) -> ~ In k rs.
+Proof.
+  assert (Back : forall rs (d : ns) x v', In (x, v') (fold_left (fun d k => dict_set d k (VMem k MOther)) rs d) ->
+                 ~ In x rs -> In (x, v') d).
+  { induction rs as [|r rs IH]; intros d x v' H N; simpl in H; [assumption|].
+    apply (dict_set_other r (VMem r MOther)); [apply IH; [assumption|]|]; intros E; apply N; [right; assumption|left; congruence]. }
+  induction rs as [|r rs IH]; intros d ND H; simpl in *; [intros []|].
+  pose proof (IH _ (dict_set_keys_nodup r (VMem r MOther) d ND) H) as N. intros [->|Hin]; [|contradiction].
+  pose proof (Back _ _ _ _ H N) as B. apply (dict_set_value _ _ _ _ ND) in B. discriminate B.
+Qed.
+
+Lemma eval_body_keys_nodup T cn i : forall b d row d' row',
+  NoDup (map fst d) -> eval_body T cn i b d row = Some (d', row') -> NoDup (map fst d').
+Proof.
+  induction b as [|e r IH]; intros d row d' row' ND H; simpl in H.
+  - inversion H; subst. assumption.
+  - destruct e as [k fe|k m].
+    + destruct (new_feature T fe); [|discriminate]. apply (IH _ _ _ _ (dict_set_keys_nodup _ _ _ ND) H).
+    + apply (IH _ _ _ _ (dict_set_keys_nodup _ _ _ ND) H).
+Qed.
+
+(* an attribute of the class body called eClass, dyn_inst or _staticEClass is never promoted *)
+Theorem reserved_key_never_promoted T cn i b d row k l :
+  eval_body T cn i b [] [] = Some (d, row) -> In (k, VFeat l) (overwrite_reserved d) -> ~ In k reserved.
+Proof.
+  intros E Hin. apply (overwritten_not_feature k l reserved d); [|exact Hin].
+  apply (eval_body_keys_nodup T cn i b [] [] d row); [constructor|exact E].
+Qed.
